@@ -21,7 +21,7 @@ PROP = {
          "cases": {"quick": 8000, "thorough": 400000}, "min_shard": 1000, "nontrivial_min_ops": 4},
         # the real coordinator, one OS thread per voter (2 and 3 parties): monitor only
         {"name": "coord-threads", "crate": "core", "bin": "sv-c17x", "machine": "c17th", "modes": ["monitor"],
-         "gen_args": ["threads"], "cases": {"quick": 6000, "thorough": 400000}, "min_shard": 750,
+         "gen_args": ["threads"], "cases": {"quick": 16000, "thorough": 800000}, "min_shard": 1000,
          "nontrivial_min_ops": 1},
     ],
     "level_text": "Proof: for 2..8 parties and every interleaving of the voters' atomic steps (fetch_or, the "
